@@ -1096,3 +1096,99 @@ def gen_slow_block_case(rng):
     body += ['g:'] if rng.chance(0.5) else ['#res 2', 'g:']
     body.append('r = tgt - tgt + %d' % K)
     return '#ruledef\n{\n    %s\n}\n%s\n' % ('\n    '.join(rules), '\n'.join(body))
+
+
+# ------------------------------------------------------------------------------------------------ multi-label blocks
+class MultiLabelCase:
+    """One macro `blk` whose block has 2-4 labels and lines of value-dependent rule families on both sides of every label,
+    each line referring to one of the block's labels.  A family partitions the integers into ranges, one rule per range,
+    each with its own opcode byte and size (2-4 bytes), so exactly one candidate matches any operand and the output can
+    be DECODED: opcode -> rule -> size -> operand.  `consistent(bits)` is the in-place meaning evaluated on an output:
+    every label is the address where it lies, every line is the rule its operand selects with that operand."""
+
+    def __init__(self, rng):
+        self.prefix = rng.range(0, 3)
+        nf = rng.range(2, 4)
+        self.fams = []
+        op = 0xa0
+        for f in range(nf):
+            k = rng.range(2, 4)
+            cuts = sorted(set(rng.range(1, 14) for _ in range(k - 1)))
+            sizes = rng.shuffle([2, 3, 4])[:len(cuts) + 1] if rng.chance(0.5) else [rng.choice([2, 3, 4]) for _ in range(len(cuts) + 1)]
+            if rng.chance(0.5):
+                sizes = sorted(sizes, reverse=rng.chance(0.5))           # monotone families: sizes that cancel out around a label
+            bounds = [None] + cuts + [None]
+            rules = []
+            for j, sz in enumerate(sizes):
+                rules.append((bounds[j], bounds[j + 1], op, sz))         # lo <= x < hi
+                op += 1
+            self.fams.append(rules)
+            op = (op & 0xf0) + 0x10
+        nl = rng.range(2, 4)
+        self.labels = ['m%d' % i for i in range(nl)]
+        nodes = [('label', l) for l in self.labels]
+        for _ in range(rng.range(nl, nl + 3)):
+            nodes.insert(rng.range(0, len(nodes)), ('instr', rng.below(nf), rng.choice(self.labels), rng.choice([0, 0, 0, 1])))
+        # every label is referred to, and something stands in front of the first label
+        for l in self.labels:
+            if not any(n[0] == 'instr' and n[2] == l for n in nodes):
+                nodes.insert(rng.range(0, len(nodes)), ('instr', rng.below(nf), l, 0))
+        if nodes[0][0] == 'label':
+            nodes.insert(0, ('instr', rng.below(nf), self.labels[0], 0))
+        self.nodes = nodes
+        self.suffix = rng.range(0, 2)
+
+    def rules_text(self):
+        out = []
+        for f, rules in enumerate(self.fams):
+            for (lo, hi, op, sz) in rules:
+                cond = ' && '.join(c for c in ['x >= %d' % lo if lo is not None else '', 'x < %d' % hi if hi is not None else ''] if c) or 'x == x'
+                out.append('q%d {x} => { assert(%s), 0x%02x @ x`%d }' % (f, cond, op, 8 * (sz - 1)))
+        out.append('nop => 0x00')
+        return out
+
+    def line(self, n, rename=None):
+        lab = (rename or {}).get(n[2], n[2])
+        return 'q%d %s%s' % (n[1], lab, ' + %d' % n[3] if n[3] else '')
+
+    def macro_text(self):
+        body = '\n        '.join(n[1] + ':' if n[0] == 'label' else self.line(n) for n in self.nodes)
+        rules = self.rules_text() + ['blk => asm {\n        %s\n    }' % body]
+        return '#ruledef\n{\n    %s\n}\n%s' % ('\n    '.join(rules), 'nop\n' * self.prefix + 'blk\n' + 'nop\n' * self.suffix)
+
+    def inplace_text(self):
+        ren = {l: l + '_u1' for l in self.labels}
+        body = '\n'.join(ren[n[1]] + ':' if n[0] == 'label' else self.line(n, ren) for n in self.nodes)
+        return '#ruledef\n{\n    %s\n}\n%s' % ('\n    '.join(self.rules_text()), 'nop\n' * self.prefix + body + '\n' + 'nop\n' * self.suffix)
+
+    def consistent(self, bits):
+        """-> (True, label addresses) or (False, reason)"""
+        data = [int(bits[i:i + 8], 2) for i in range(0, len(bits) - len(bits) % 8, 8)]
+        pos = self.prefix
+        if any(data[:pos]):
+            return False, 'prefix bytes are not the nops'
+        addr, lines = {}, []
+        for n in self.nodes:
+            if n[0] == 'label':
+                addr[n[1]] = pos
+                continue
+            if pos >= len(data):
+                return False, 'output ends inside the block'
+            rule = next((r for r in self.fams[n[1]] if r[2] == data[pos]), None)
+            if rule is None:
+                return False, 'byte %d (0x%02x) is no opcode of family q%d' % (pos, data[pos], n[1])
+            sz = rule[3]
+            operand = int.from_bytes(bytes(data[pos + 1:pos + sz]), 'big')
+            lines.append((n, rule, operand, pos))
+            pos += sz
+        if len(data) != pos + self.suffix or any(data[pos:]):
+            return False, 'the block ends at byte %d but the output has %d bytes' % (pos, len(data))
+        for (n, rule, operand, at) in lines:
+            want = addr[n[2]] + n[3]
+            lo, hi = rule[0], rule[1]
+            if operand != want:
+                return False, 'the line at byte %d (`%s`) encodes the operand %d, but %s lies at address %d in this very output' % (
+                    at, self.line(n), operand, n[2], addr[n[2]])
+            if (lo is not None and want < lo) or (hi is not None and want >= hi):
+                return False, 'the line at byte %d uses the rule for another operand range than its operand %d' % (at, want)
+        return True, addr
